@@ -49,7 +49,17 @@ Example C09_nonvacuous :
             emitted s = [4; 5] /\ ctr s = 5 /\ holder s = None.
 Proof. eexists. vm_compute. repeat split. Qed.
 
+(* the own chain key is written outside [SealEnvelope] by ONE caller only (its creation at first use, above); an
+   announcement read back from the metadata log never takes the store-as-it-is branch of registerChainKey in
+   the CURRENT source (generated facts): it could put an older counter back *)
+Theorem C09_announcements_never_overwrite_own_chain :
+  (register_public_own_test = "localMemberDevice.Member().Equals(senderDevicePublicKey)" /\
+   register_public_passes = "hasSecretBeenSentByCurrentDevice" /\
+   register_chain_key_callers = ["getOwnDeviceChainKeyForGroup: true"; "RegisterChainKey: hasSecretBeenSentByCurrentDevice"])%string.
+Proof. exact register_branches_ok. Qed.
+
 Print Assumptions C09_seal_counters_exact.
 Print Assumptions C09_counters_distinct.
 Print Assumptions C09_stored_counter_monotone.
 Print Assumptions C09_first_use_one_chain.
+Print Assumptions C09_announcements_never_overwrite_own_chain.
